@@ -134,6 +134,18 @@ pub fn run(cfg: &J) -> J {
             r.one(t, oi, ro, po, true);
         }
     }
+    // further texts (the token corpus of the specification and tokens that fail in ways of their own, bare and inside a
+    // list): whatever of them the parser accepts must print and read back unchanged
+    let mut extra = 0u64;
+    if let Some(xs) = cfg["extra_texts"].as_array() {
+        for x in xs {
+            let t = j_bytes(x);
+            extra += 1;
+            for (oi, (ro, po)) in opts.iter().enumerate() {
+                r.one(&t, oi, ro, po, false);
+            }
+        }
+    }
     // all words over the alphabet; symbol 0 is the empty padding and only allowed at the end
     let na = alphabet.len();
     let mut idx = vec![0usize; maxlen];
@@ -171,7 +183,7 @@ pub fn run(cfg: &J) -> J {
         }
     }
     json!({"bad": r.bad, "trace": r.trace, "evaluations": r.evals, "accepted": r.accepted, "words": words,
-           "corpus_texts": texts.len(), "option_sets": nopts, "distinct_accepted": r.distinct.len()})
+           "corpus_texts": texts.len(), "extra_texts": extra, "option_sets": nopts, "distinct_accepted": r.distinct.len()})
 }
 
 pub fn replay_case(case: &J) -> J {
